@@ -8,7 +8,7 @@
    time.Duration = Z; bool = bool; error = bool (true = non-nil).
    A Go run-time panic (index or slice out of range, division by zero) is the
    result GoPanic: the translator guards every such operation. *)
-From Goat Require Import Base.Bytes Model.Timeout Model.Base64.
+From Goat Require Import Base.Bytes Model.Timeout Model.Base64 Model.Status.
 Open Scope Z_scope.
 
 Inductive goresult (T : Type) := GoOk (v : T) | GoPanic.
@@ -94,3 +94,17 @@ Definition go_last_index (s sep : bytes) : Z :=
 Definition go_b64_encode (s : bytes) : bytes := enc s.
 Definition go_b64_decode (s : bytes) : bytes * bool :=
   match dec s with Some v => (v, false) | None => ([], true) end.
+
+(* ---- structured errors and envelope fields (status decisions of C03) ----
+   an envelope is Model/Status.v's [fenv] with messages as byte strings and
+   details / bodies as tokens; getters are nil-safe as protobuf's are *)
+Inductive goerr := GErrNil | GErrEof | GErrStatus (st : status bytes Z).
+Definition go_env := fenv bytes Z Z.
+Definition go_get_code (s : option (wstatus bytes Z)) : Z := match s with Some ws => ws_code ws | None => 0 end.
+Definition go_get_message (s : option (wstatus bytes Z)) : bytes := match s with Some ws => ws_msg ws | None => [] end.
+Definition go_get_details (s : option (wstatus bytes Z)) : list Z := match s with Some ws => ws_det ws | None => [] end.
+(* status.Error(code, msg): a non-OK code is assumed at these call sites (constants) *)
+Definition go_status_error (c : Z) (m : bytes) : goerr := GErrStatus (mkSt c m []).
+(* status.FromProto(&spb.Status{..}).Err(): nil for an OK code *)
+Definition go_from_proto_err (ws : wstatus bytes Z) : goerr :=
+  if of_i32 (ws_code ws) =? 0 then GErrNil else GErrStatus (of_wire ws).
